@@ -220,6 +220,23 @@ func engRun(c *engCase, cmds []database.Command, dir string) {
 		vdb.SearchWithOptionsAndCache(q, v)
 	}
 	c.Extra["cached_after_variants"] = projectResults(db, vdb.SearchWithOptionsAndCache(q, o))
+	// the database is re-read (same command lines, a field the engine does not look at edited): the next cached
+	// answer must name entries of the NEW list
+	func() {
+		defer func() {
+			if rec := recover(); rec != nil {
+				c.Note = "panic in refresh run"
+			}
+		}()
+		rdb := database.NewCachedDatabase(database.VerifFresh(db.Commands))
+		rdb.SearchWithOptionsAndCache(q, o)
+		edited := append([]database.Command(nil), rdb.Database.Commands...)
+		for i := range edited {
+			edited[i].Niche += " (edited)"
+		}
+		rdb.UpdateDatabase(edited)
+		c.Extra["cached_after_refresh"] = projectResults(rdb.Database, rdb.SearchWithOptionsAndCache(q, o))
+	}()
 	c.Extra["legacy_pipeline"] = projectResults(db, db.SearchWithPipelineOptions(q, o))
 	c.Extra["search"] = projectResults(db, db.Search(q, o.Limit))
 }
